@@ -7,6 +7,7 @@
 //!     s,path,data  plant a file in the cache dir     x,path  delete a file / symlink of the cache dir
 //!     m,path  plant a DIRECTORY (mkdir -p)     k,path  plant a DANGLING SYMLINK     t,path,n  cut a regular file to its first n bytes
 //!     y,path,data  plant a SYMLINK to a regular file (outside the cache dir) holding data
+//!     q,t,list  `Cache::remove_not_in_list(t, list)` directly (list = `-` | `id:size+id:size…`): the pack clean-up of `check`
 //!     f  cache-dir layout      b  backend contents
 //! Direct oracles: a shadow `MemBackend` receives every operation uncached — the real store must always equal
 //! the shadow's; results through the cached handle must equal the shadow's whenever the file's type has been
@@ -115,7 +116,7 @@ fn hist(steps: &str) -> String {
     let be = MemBackend::new();
     let shadow = MemBackend::named("shadow");
     let cache = rustic_core::verif::cache::cache_at(croot.clone());
-    let cached = rustic_core::verif::cache::cached_backend(Arc::new(be.clone()), cache);
+    let cached = rustic_core::verif::cache::cached_backend(Arc::new(be.clone()), cache.clone());
     // dirty[t]: the cache dir or the repository changed behind the cached handle since its last listing of t
     let mut dirty = [false; 5];
     let mut n_stash = 0usize;
@@ -145,6 +146,52 @@ fn hist(steps: &str) -> String {
                 }
                 _ = std::fs::remove_file(croot.join(path));
                 "ok".into()
+            }
+            ["q", t, list] => {
+                // `Cache::remove_not_in_list(t, list)` called directly — the pack clean-up of `check` (there: t = pack, list = the tree
+                // packs of the index with the sizes the index records), with and without `trust_cache`
+                let Some(t) = tpe_of(t) else { return "bad-op".into() };
+                let mut l: Vec<(Id, u32)> = Vec::new();
+                if *list != "-" {
+                    for e in list.split('+') {
+                        let Some((id, n)) = e.split_once(':') else { return "bad-op".into() };
+                        let (Some(id), Ok(n)) = (id_of(id), n.parse::<u32>()) else { return "bad-op".into() };
+                        l.push((id, n));
+                    }
+                }
+                let res = cache.remove_not_in_list(t, &l);
+                // what survives has the size the list gives for that id (theorem `no_stale_pack_after_check`)
+                let want: BTreeMap<Id, u32> = l.iter().copied().collect();
+                for sub in std::fs::read_dir(croot.join(t.dirname())).into_iter().flatten().flatten() {
+                    if !sub.path().is_dir() {
+                        continue;
+                    }
+                    for e in std::fs::read_dir(sub.path()).into_iter().flatten().flatten() {
+                        let name = e.file_name().to_string_lossy().to_string();
+                        let Some(id) = id_of(&name) else { continue };
+                        if !e.path().is_file() || sub.file_name().to_string_lossy() != name[..2] {
+                            continue;
+                        }
+                        let sz = std::fs::metadata(e.path()).map(|m| m.len()).unwrap_or(0);
+                        if want.get(&id).map(|n| u64::from(*n)) != Some(sz) {
+                            fail = fail.or(Some("oracle-fail:entry-not-in-list-after-cleanup".into()));
+                        }
+                    }
+                }
+                // the list is the repository's listing of the files of that type that are ever cached (packs: the tree packs): the cache
+                // is clean for that type now, every read through the cached handle must equal the uncached one
+                let mut truth: Vec<(Id, u32)> = be
+                    .store()
+                    .iter()
+                    .filter(|((ft, id), _)| *ft == ft_idx(t) && (is_cacheable(t) || cbf(ft_idx(t), id.to_hex().as_str()) == 1))
+                    .map(|((_, id), b)| (*id, b.len() as u32))
+                    .collect();
+                truth.sort();
+                l.sort();
+                if res.is_ok() && l == truth {
+                    dirty[ft_idx(t) as usize] = false;
+                }
+                if res.is_ok() { "ok".into() } else { "err".into() }
             }
             ["m", path] => {
                 // a DIRECTORY planted in the cache dir (`mkdir -p`); never makes the cache "dirty": whatever lies below or at
@@ -327,6 +374,142 @@ pub fn exec(t: &[&str]) -> String {
 
 // ---------------------------------------------------------------------------------- repository level
 
+/// The packs listed by the index files (not marked for deletion): `(id, is a tree pack, size)`, read through an uncached handle.
+fn indexed_packs(h: &crate::repo::RepoHandle, opts: &rustic_core::RepositoryOptions) -> Option<Vec<(Id, bool, u32)>> {
+    use rustic_core::repofile::{BlobType, IndexFile};
+    let repo = h.open_with(opts).ok()?;
+    let mut v = Vec::new();
+    for item in repo.stream_files::<IndexFile>().ok()? {
+        let (_, f) = item.ok()?;
+        for p in &f.packs {
+            v.push((*p.id, p.blob_type() == BlobType::Tree, p.pack_size()));
+        }
+    }
+    v.sort();
+    v.dedup();
+    Some(v)
+}
+
+/// (re)places whatever non-directory sits at `path` by a regular file holding `data`
+fn put_file(path: &Path, data: &[u8]) {
+    if let Some(par) = path.parent() {
+        _ = std::fs::create_dir_all(par);
+    }
+    if path.is_symlink() || path.is_file() {
+        _ = std::fs::remove_file(path);
+    }
+    if !path.is_dir() {
+        _ = std::fs::write(path, data);
+    }
+}
+
+/// Plants files at the cache locations `<root>/data/<xx>/<id>` of packs of the repository.
+/// `tree`: foreign / overwritten files of ANOTHER SIZE at the locations of tree packs, and a stale pack the repository does not have — what
+/// only `check` cleans up (its pack clean-up runs with and without `trust_cache`), so this is planted right before a `check`.
+/// `data`: foreign files (any size, the pack's own size included) at the locations of DATA packs — those are never cached
+/// (`cacheable = false`), no operation may ever look at them.
+fn plant_packs(rng: &mut Rng, root: &Path, tmp: &Path, n_stash: &mut usize, be: &MemBackend, packs: &[(Id, bool, u32)], tree: bool, data: bool) {
+    let at = |id: &Id| {
+        let hex_id = id.to_hex();
+        root.join("data").join(&hex_id[0..2]).join(hex_id.as_str())
+    };
+    for (id, is_tree, size) in packs {
+        let size = *size as usize;
+        let path = at(id);
+        if path.is_dir() && !path.is_symlink() {
+            continue;
+        }
+        if *is_tree && tree && rng.chance(2, 3) {
+            match rng.below(5) {
+                0 => put_file(&path, &vec![0u8; size + 7]),
+                1 => {
+                    let n = size + 1 + rng.below(9) as usize;
+                    put_file(&path, &rng.bytes(n));
+                }
+                2 if size > 1 => {
+                    let n = size - 1 - rng.below(size.min(10) as u64 - 1) as usize;
+                    put_file(&path, &rng.bytes(n));
+                }
+                3 => {
+                    // the pack itself, extended
+                    let mut d = be.get(FileType::Pack, id).map(|b| b.to_vec()).unwrap_or_default();
+                    d.extend_from_slice(b"garbage");
+                    put_file(&path, &d);
+                }
+                _ => {
+                    // a symlink to a foreign file of another size
+                    *n_stash += 1;
+                    let target = tmp.join(format!("stash{n_stash}"));
+                    put_file(&path, b"");
+                    if std::fs::write(&target, rng.bytes(size + 3)).is_ok() && std::fs::remove_file(&path).is_ok() {
+                        _ = std::os::unix::fs::symlink(&target, &path);
+                    }
+                }
+            }
+        }
+        if !*is_tree && data && rng.chance(2, 3) {
+            match rng.below(4) {
+                0 => put_file(&path, &vec![0u8; size]),
+                1 => put_file(&path, &rng.bytes(size)),
+                2 => {
+                    let n = size + 1 + rng.below(9) as usize;
+                    put_file(&path, &rng.bytes(n));
+                }
+                _ => {
+                    *n_stash += 1;
+                    let target = tmp.join(format!("stash{n_stash}"));
+                    put_file(&path, b"");
+                    if std::fs::write(&target, vec![0u8; size]).is_ok() && std::fs::remove_file(&path).is_ok() {
+                        _ = std::os::unix::fs::symlink(&target, &path);
+                    }
+                }
+            }
+        }
+    }
+    if data {
+        // key files and the config file are never cached either: foreign files at `keys/<xx>/<id>`, `config/00/00…0` (opening the
+        // repository reads both)
+        for (t, id) in be.ids(FileType::Key).into_iter().map(|i| (FileType::Key, i)).chain(std::iter::once((FileType::Config, Id::default()))) {
+            if rng.chance(1, 2) {
+                let hex_id = id.to_hex();
+                let size = be.get(t, &id).map_or(10, |b| b.len());
+                let n = if rng.chance(1, 2) { size } else { size + 1 + rng.below(9) as usize };
+                let d = if rng.chance(1, 2) { vec![0u8; n] } else { rng.bytes(n) };
+                put_file(&root.join(t.dirname()).join(&hex_id[0..2]).join(hex_id.as_str()), &d);
+            }
+        }
+    }
+    if tree && rng.chance(1, 2) {
+        // a stale pack: "another process" pruned it from the repository
+        let id: Id = hex::encode(rng.bytes(32)).parse().unwrap();
+        put_file(&at(&id), &rng.bytes(40));
+    }
+}
+
+/// After a `check` through the cached handle: a properly placed regular file (or symlink to one) in `<root>/data` that is not a tree pack
+/// of the index, or has another size than the index says (model: `checkCleanup`, theorem `no_stale_pack_after_check`).
+fn bad_cached_pack(root: &Path, packs: &[(Id, bool, u32)]) -> Option<&'static str> {
+    for sub in std::fs::read_dir(root.join("data")).into_iter().flatten().flatten() {
+        if !sub.path().is_dir() {
+            continue;
+        }
+        for e in std::fs::read_dir(sub.path()).into_iter().flatten().flatten() {
+            let name = e.file_name().to_string_lossy().to_string();
+            let Some(id) = id_of(&name) else { continue };
+            if !e.path().is_file() || sub.file_name().to_string_lossy() != name[..2] {
+                continue;
+            }
+            let sz = std::fs::metadata(e.path()).map(|m| m.len()).unwrap_or(0);
+            match packs.iter().find(|(i, _, _)| *i == id) {
+                Some((_, true, n)) if u64::from(*n) == sz => {}
+                Some((_, true, _)) => return Some("wrong-size-pack-cached-after-check"),
+                _ => return Some("stale-or-data-pack-cached-after-check"),
+            }
+        }
+    }
+    None
+}
+
 /// Histories of backup / forget / prune / check alternately through a cached and an uncached handle on one
 /// backend, with the cache directory damaged in between.  Observation `ok <n snapshots>`; every divergence from
 /// what an uncached repository must show is an `oracle-fail`.
@@ -338,7 +521,10 @@ pub fn repo_level(seed: u64) -> String {
     let tmp = tempfile::tempdir().expect("tempdir");
     let cdir = tmp.path().join("cache");
     let be = MemBackend::new();
-    let Ok((h, _)) = RepoHandle::init(be.clone(), None, &ConfigOptions::default()) else { return "err:init".into() };
+    let Ok((h, repo0)) = RepoHandle::init(be.clone(), None, &ConfigOptions::default()) else { return "err:init".into() };
+    // `<cache dir>/<repository id>`: what `Cache::new` uses
+    let croot = cdir.join(repo0.config().id.to_hex().as_str());
+    drop(repo0);
     let cached_opts = RepositoryOptions::default().cache_dir(cdir.clone());
     let uncached_opts = RepositoryOptions::default().no_cache(true);
     let opts_of = |cached: bool| if cached { cached_opts.clone() } else { uncached_opts.clone() };
@@ -419,6 +605,9 @@ pub fn repo_level(seed: u64) -> String {
                 }
             }
         }
+        // files at the cache locations of DATA packs (never cached): no command may look at them
+        let Some(packs) = indexed_packs(&h, &uncached_opts) else { return format!("oracle-fail:index-files-step{step}") };
+        plant_packs(&mut rng, &croot, tmp.path(), &mut n_stash, &be, &packs, false, true);
         let Ok(repo) = h.open_with(&opts_of(cached)) else { return format!("oracle-fail:open-step{step}-cached{cached}") };
         match rng.below(4) {
             0 | 1 => {
@@ -466,18 +655,43 @@ pub fn repo_level(seed: u64) -> String {
                 }
             }
         }
-        // every snapshot must read back identically through both handles, check must be clean through both
-        for c in [true, false] {
-            let Ok(repo) = h.open_with(&opts_of(c)) else { return format!("oracle-fail:reopen-step{step}-cached{c}") };
-            let Ok(res) = repo.check(CheckOptions::default().read_data(true)) else { return format!("oracle-fail:check-failed-step{step}-cached{c}") };
-            if std::env::var("C19_DEBUG").is_ok() {
-                for (l, m) in &res.0 {
-                    eprintln!("check[{c}] {l:?}: {}", format!("{m:?}").chars().take(200).collect::<String>());
+        // `check` with trust_cache on / off and read_data on / off through both handles: same findings, none of them an error.  Before
+        // every pair of runs wrong-sized foreign / overwritten tree packs, a stale pack and files at data-pack locations are planted in the
+        // cache (the first `check` through the cached handle cleans them up again — with and without trust_cache).
+        let Some(packs) = indexed_packs(&h, &uncached_opts) else { return format!("oracle-fail:index-files-step{step}") };
+        let mut combos = [(false, true), (true, true), (true, false), (false, false)];
+        let r = rng.below(4) as usize;
+        combos.rotate_left(r);
+        for (trust, rd) in combos {
+            plant_packs(&mut rng, &croot, tmp.path(), &mut n_stash, &be, &packs, true, true);
+            let mut findings: Vec<Vec<String>> = Vec::new();
+            for c in [true, false] {
+                let tag = format!("step{step}-cached{c}-trust{}-rd{}", u8::from(trust), u8::from(rd));
+                let Ok(repo) = h.open_with(&opts_of(c)) else { return format!("oracle-fail:reopen-{tag}") };
+                let Ok(res) = repo.check(CheckOptions::default().trust_cache(trust).read_data(rd)) else { return format!("oracle-fail:check-failed-{tag}") };
+                if std::env::var("C19_DEBUG").is_ok() {
+                    for (l, m) in &res.0 {
+                        eprintln!("check[{tag}] {l:?}: {}", format!("{m:?}").chars().take(200).collect::<String>());
+                    }
+                }
+                if res.0.iter().any(|(l, _)| format!("{l:?}") == "Error") {
+                    return format!("oracle-fail:check-errors-{tag}");
+                }
+                let mut f: Vec<String> = res.0.iter().map(|(l, m)| format!("{l:?}:{m:?}")).collect();
+                f.sort();
+                findings.push(f);
+                if c && let Some(what) = bad_cached_pack(&croot, &packs) {
+                    return format!("oracle-fail:{what}-{tag}");
                 }
             }
-            if res.0.iter().any(|(l, _)| format!("{l:?}") == "Error") {
-                return format!("oracle-fail:check-errors-step{step}-cached{c}");
+            if findings[0] != findings[1] {
+                return format!("oracle-fail:check-findings-differ-step{step}-trust{}-rd{}", u8::from(trust), u8::from(rd));
             }
+        }
+        // every snapshot must read back identically through both handles — whatever lies at the cache locations of the data packs
+        plant_packs(&mut rng, &croot, tmp.path(), &mut n_stash, &be, &packs, false, true);
+        for c in [true, false] {
+            let Ok(repo) = h.open_with(&opts_of(c)) else { return format!("oracle-fail:reopen-step{step}-cached{c}") };
             let Ok(snaps) = repo.get_all_snapshots() else { return format!("oracle-fail:snapshots-step{step}-cached{c}") };
             if snaps.len() != sources.len() {
                 return format!("oracle-fail:snapshot-count-step{step}-cached{c}");
@@ -522,6 +736,20 @@ fn unused_size(used: &[(u8, String, usize)], t: u8, id: &str, mut n: usize) -> u
     n
 }
 
+/// `id:size+…` of the live tree packs (`cbf` = 1); `skew`: one entry with another size (an index that disagrees with the repository)
+fn pack_list(live: &[(u8, String, usize)], skew: Option<usize>) -> String {
+    let tree: Vec<&(u8, String, usize)> = live.iter().filter(|(t, id, _)| *t == 4 && cbf(*t, id) == 1).collect();
+    let bad = skew.filter(|_| !tree.is_empty()).map(|k| k % tree.len());
+    let v: Vec<String> = tree.iter().enumerate().map(|(i, (_, id, n))| format!("{id}:{}", if bad == Some(i) { n + 1 } else { *n })).collect();
+    if v.is_empty() { "-".into() } else { v.join("+") }
+}
+
+/// The `cacheable` flag callers pass for a file: a function of the file (a pack is a tree pack — cached — or a data pack — never cached),
+/// here derived from the id: packs whose id starts with `0`..`4` are data packs.
+fn cbf(t: u8, id: &str) -> u8 {
+    u8::from(t == 4 && !matches!(id.as_bytes()[0], b'0'..=b'4'))
+}
+
 pub fn generate(thorough: bool, rng: &mut Rng, ops: &mut Vec<String>, stats: &mut Stats) {
     // two handles strictly alternating: every operation of the cached handle is preceded by a change made through the
     // uncached handle (a new file, a removal, an overwrite with another size) of a type the cache keeps, so the cache
@@ -533,13 +761,14 @@ pub fn generate(thorough: bool, rng: &mut Rng, ops: &mut Vec<String>, stats: &mu
         let mut gone: Vec<(u8, String, usize)> = Vec::new();
         let mut steps: Vec<String> = Vec::new();
         for _ in 0..n {
-            let t = *rng.pick(&[1u8, 3, 3, 4]);
-            let cb = u8::from(t == 4);
+            // (2 = key files and data packs — `cbf` = 0 — are never cached)
+            let t = *rng.pick(&[1u8, 3, 3, 4, 4, 4, 2]);
             // --- the other process
             let (ut, uid, ulen) = match rng.below(4) {
                 0 | 1 => {
                     stats.hit("alt.u-write-new");
                     let id = hex::encode(rng.bytes(32));
+                    let cb = cbf(t, &id);
                     let len = *rng.pick(&[0usize, 1, 7, 40, 300]);
                     steps.push(format!("w,u,{t},{id},{cb},{}", if len > 64 { format!("g{}.{len}", rng.below(1 << 30)) } else { hex(&rng.bytes(len)) }));
                     live.push((t, id.clone(), len));
@@ -549,7 +778,7 @@ pub fn generate(thorough: bool, rng: &mut Rng, ops: &mut Vec<String>, stats: &mu
                     stats.hit("alt.u-remove");
                     let i = rng.below(live.len() as u64) as usize;
                     let (t, id, len) = live.remove(i);
-                    steps.push(format!("d,u,{t},{id},{}", u8::from(t == 4)));
+                    steps.push(format!("d,u,{t},{id},{}", cbf(t, &id)));
                     gone.push((t, id.clone(), len));
                     (t, id, len)
                 }
@@ -558,14 +787,14 @@ pub fn generate(thorough: bool, rng: &mut Rng, ops: &mut Vec<String>, stats: &mu
                     let i = rng.below(live.len() as u64) as usize;
                     let (t, id, len) = live[i].clone();
                     let nl = len + 1 + rng.below(5) as usize;
-                    steps.push(format!("w,u,{t},{id},{},g{}.{nl}", u8::from(t == 4), rng.below(1 << 30)));
+                    steps.push(format!("w,u,{t},{id},{},g{}.{nl}", cbf(t, &id), rng.below(1 << 30)));
                     live[i].2 = nl;
                     (t, id, nl)
                 }
                 _ => {
                     stats.hit("alt.u-write-new");
                     let id = hex::encode(rng.bytes(32));
-                    steps.push(format!("w,u,{t},{id},{cb},0102030405"));
+                    steps.push(format!("w,u,{t},{id},{},0102030405", cbf(t, &id)));
                     live.push((t, id.clone(), 5));
                     (t, id, 5)
                 }
@@ -574,6 +803,11 @@ pub fn generate(thorough: bool, rng: &mut Rng, ops: &mut Vec<String>, stats: &mu
             if rng.chance(3, 4) {
                 stats.hit("alt.c-list");
                 steps.push(format!("l,c,{ut}"));
+            }
+            if ut == 4 && rng.chance(1, 2) {
+                // what `check` does (with and without trust_cache): the pack cache is cleaned against the tree packs of the index
+                stats.hit("alt.c-pack-cleanup");
+                steps.push(format!("q,4,{}", pack_list(&live, None)));
             }
             let (rt, rid, rlen) = if rng.chance(2, 3) {
                 (ut, uid, ulen)
@@ -584,7 +818,21 @@ pub fn generate(thorough: bool, rng: &mut Rng, ops: &mut Vec<String>, stats: &mu
             } else {
                 (ut, uid, ulen)
             };
-            if rng.chance(1, 6) {
+            let never_cached = !matches!(rt, 1 | 3) && cbf(rt, &rid) == 0;
+            if never_cached && rng.chance(1, 2) {
+                // a foreign file where the entry of a NEVER-cached file (data pack, key) would be — its size, or longer: the cached handle
+                // must not look at it (reads, whole and ranged, go to the repository)
+                stats.hit("alt.foreign-file-at-noncacheable-entry");
+                let dir = ["config", "index", "keys", "snapshots", "data"][rt as usize];
+                let n = rlen + rng.below(3) as usize;
+                let data = if n > 64 || rng.chance(1, 2) { format!("g{}.{n}", rng.below(1 << 30)) } else { hex(&vec![0u8; n]) };
+                if rng.chance(3, 4) {
+                    steps.push(format!("s,{dir}/{}/{rid},{data}", &rid[..2]));
+                } else {
+                    steps.push(format!("x,{dir}/{}/{rid}", &rid[..2]));
+                    steps.push(format!("y,{dir}/{}/{rid},{data}", &rid[..2]));
+                }
+            } else if rng.chance(1, 6) {
                 // a directory where the entry of that file belongs (stays there for the rest of the history)
                 let dir = ["config", "index", "keys", "snapshots", "data"][rt as usize];
                 if rng.chance(2, 3) {
@@ -609,16 +857,16 @@ pub fn generate(thorough: bool, rng: &mut Rng, ops: &mut Vec<String>, stats: &mu
                     stats.hit("alt.c-read-partial");
                     let off = rng.below(rlen as u64 + 1) as usize;
                     let l = if rng.chance(1, 5) { rlen - off + 1 } else { rng.below((rlen - off) as u64 + 1) as usize };
-                    steps.push(format!("p,c,{rt},{rid},{},{off},{l}", u8::from(rt == 4)));
+                    steps.push(format!("p,c,{rt},{rid},{},{off},{l}", cbf(rt, &rid)));
                 }
                 _ => {
                     stats.hit("alt.c-remove");
-                    steps.push(format!("d,c,{rt},{rid},{}", u8::from(rt == 4)));
+                    steps.push(format!("d,c,{rt},{rid},{}", cbf(rt, &rid)));
                     live.retain(|(a, b, _)| !(*a == rt && *b == rid));
                 }
             }
         }
-        for t in [1, 3, 4] {
+        for t in [1, 3, 4, 2] {
             steps.push(format!("l,c,{t}"));
         }
         steps.push("f".into());
@@ -640,7 +888,7 @@ pub fn generate(thorough: bool, rng: &mut Rng, ops: &mut Vec<String>, stats: &mu
             let h = if rng.chance(2, 3) { "c" } else { "u" };
             // the cacheable flag of a pack is a function of the pack (tree pack or data pack): callers never write a
             // file as cacheable and remove or read it as non-cacheable, so the flag is derived from the id
-            let cb_of = |t: u8, id: &str| u8::from(t == 4 && !matches!(id.as_bytes()[0], b'0'..=b'4'));
+            let cb_of = cbf;
             let fresh = |rng: &mut Rng, pool: &mut Vec<String>| {
                 let id = if !pool.is_empty() && rng.chance(1, 5) {
                     // same two-character prefix as an existing id
@@ -660,7 +908,24 @@ pub fn generate(thorough: bool, rng: &mut Rng, ops: &mut Vec<String>, stats: &mu
                     (t, hex::encode(rng.bytes(32)), 10)
                 }
             };
-            match rng.below(22) {
+            match rng.below(23) {
+                22 => {
+                    // the pack clean-up of `check` (1/4: against a list in which one pack has another size), then ranged reads of packs
+                    let skew = if rng.chance(1, 4) { Some(rng.below(7) as usize) } else { None };
+                    stats.hit(if skew.is_some() { "op.pack-cleanup.skewed-list" } else { "op.pack-cleanup" });
+                    steps.push(format!("q,4,{}", pack_list(&written, skew)));
+                    let packs: Vec<(u8, String, usize)> = written.iter().filter(|(a, _, l)| *a == 4 && *l > 0).cloned().collect();
+                    for _ in 0..rng.below(3) {
+                        if packs.is_empty() {
+                            break;
+                        }
+                        let (_, id, len) = rng.pick(&packs).clone();
+                        let off = rng.below(len as u64) as usize;
+                        let l = 1 + rng.below((len - off) as u64) as usize;
+                        stats.hit("op.read-partial.after-pack-cleanup");
+                        steps.push(format!("p,c,4,{id},{},{off},{l}", cbf(4, &id)));
+                    }
+                }
                 0..=4 => {
                     let mut len = *rng.pick(&[0usize, 1, 5, 33, 100, 100, 700, 5000]);
                     let id = if !written.is_empty() && rng.chance(1, 8) {
@@ -730,7 +995,55 @@ pub fn generate(thorough: bool, rng: &mut Rng, ops: &mut Vec<String>, stats: &mu
                     let (t2, id, len) = known(rng, &written, &mut pool, t);
                     let dir = dirs[t2 as usize];
                     let proper = format!("{dir}/{}/{id}", &id[..2]);
-                    match rng.below(20) {
+                    match rng.below(23) {
+                        20..=22 => {
+                            // a foreign file (or a symlink to one) at the cache location of a file that is NEVER cached — config, key, data pack
+                            // (`cacheable = false`) — of the file's own size, longer, or a cut copy; then whole and ranged reads of that file
+                            // through both handles: the cached handle must not look into the cache for it
+                            let never: Vec<(u8, String, usize)> =
+                                written.iter().filter(|(a, b, _)| !matches!(*a, 1 | 3) && cb_of(*a, b) == 0).cloned().collect();
+                            let (t3, id3, len3) = if !never.is_empty() && rng.chance(3, 4) {
+                                rng.pick(&never).clone()
+                            } else {
+                                // (a new data pack / key / config file, written through either handle)
+                                let t3 = *rng.pick(&[4u8, 4, 4, 2, 0]);
+                                let id3 = format!("{}{}", rng.below(5), &hex::encode(rng.bytes(32))[1..]);
+                                pool.push(id3.clone());
+                                let len3 = unused_size(&sizes_used, t3, &id3, *rng.pick(&[1usize, 5, 33, 100, 700]));
+                                sizes_used.push((t3, id3.clone(), len3));
+                                let data = if len3 > 64 { format!("g{}.{len3}", rng.below(1 << 30)) } else { hex(&rng.bytes(len3)) };
+                                written.push((t3, id3.clone(), len3));
+                                tokens.push((t3, id3.clone(), data.clone()));
+                                steps.push(format!("w,{h},{t3},{id3},0,{data}"));
+                                (t3, id3, len3)
+                            };
+                            let proper = format!("{}/{}/{id3}", dirs[t3 as usize], &id3[..2]);
+                            let n = match rng.below(4) {
+                                0 => len3 + 1 + rng.below(9) as usize,
+                                1 => len3 / 2,
+                                _ => len3,
+                            };
+                            let data = if n > 64 || rng.chance(1, 2) { format!("g{}.{n}", rng.below(1 << 30)) } else { hex(&vec![0u8; n]) };
+                            if rng.chance(3, 4) {
+                                stats.hit("plant.foreign-at-noncacheable-entry");
+                                steps.push(format!("s,{proper},{data}"));
+                            } else {
+                                stats.hit("plant.link-to-foreign-at-noncacheable-entry");
+                                steps.push(format!("y,{proper},{data}"));
+                            }
+                            for hh in ["c", "u"] {
+                                if rng.chance(2, 3) {
+                                    stats.hit(format!("op.read-full.noncacheable-planted.{hh}"));
+                                    steps.push(format!("r,{hh},{t3},{id3}"));
+                                }
+                                if len3 > 0 && rng.chance(4, 5) {
+                                    stats.hit(format!("op.read-partial.noncacheable-planted.{hh}"));
+                                    let off = rng.below(len3 as u64) as usize;
+                                    let l = 1 + rng.below((len3 - off) as u64) as usize;
+                                    steps.push(format!("p,{hh},{t3},{id3},0,{off},{l}"));
+                                }
+                            }
+                        }
                         18 => {
                             // a SYMLINK TO A REGULAR FILE at the proper entry path: an intact copy of the last version written, or
                             // foreign bytes of a size no version has (a stale / wrong-sized "entry" that a listing must remove)
@@ -898,7 +1211,7 @@ pub fn generate(thorough: bool, rng: &mut Rng, ops: &mut Vec<String>, stats: &mu
                 _ => steps.push("b".into()),
             }
         }
-        for t in [1, 3, 4] {
+        for t in [1, 3, 4, 2, 0] {
             steps.push(format!("l,c,{t}"));
         }
         steps.push("f".into());
